@@ -521,6 +521,7 @@ class SimNet:
         # delayed past several later round trips on another socket cannot happen on a real loop.
         lo, hi = self.cfg.accept_delay
         jitter = lo if hi <= lo else self.rng.uniform(lo, hi)
+        jitter = min(jitter, self.cfg.latency[1])  # never more than one latency (see above)
         lat_synack = self._lat()
         d_acc = lat_synack + self._lat() + jitter
         loop.call_at(loop._vtime + lat_synack, self._event, "connected", conn, "c", 0, lambda: self._client_connected(conn))
